@@ -79,7 +79,8 @@ fn gen(t: &mut Tape, _tier: Tier) -> Scenario {
     let through_stream = t.below(3) == 0;
     if through_stream {
         sc.set_i("ep", EP_STREAM);
-        let ops = draw_history(t, input.len(), &[], false);
+        // with flush / get_output / empty writes in between: none of them changes what is delivered
+        let ops = draw_history(t, input.len(), &[], true);
         sc.set_l("ops", ops);
     } else {
         sc.set_i("ep", EP_LZMA);
